@@ -25,7 +25,13 @@ impl Compiler {
         let right_resolved = aelys_sema::ResolvedType::from_infer_type(&right.ty);
         let opcode = crate::opcode_select::select_opcode(op, &left_resolved, &right_resolved);
 
-        if let Some(left_local_reg) = self.get_typed_local_register(left) {
+        // The left operand may only be read from its own register at the time of the operation
+        // if evaluating the right operand cannot change it (a call or an assignment can: operands
+        // are evaluated left to right, `x + bump()` uses the value x had before bump ran).
+        if let Some(left_local_reg) = self.get_typed_local_register(left)
+            && (self.get_typed_local_register(right).is_some()
+                || !Self::typed_expr_may_have_side_effects(right))
+        {
             let (right_reg, right_needs_free) =
                 if let Some(r) = self.get_typed_local_register(right) {
                     (r, false)
